@@ -884,6 +884,7 @@ func checkC02(c *ctx) {
 		line int
 		rd   int
 		impl []string
+		flat bool
 	}
 	var runs []run
 	procsList := []int{1, 4, 16}
@@ -900,14 +901,14 @@ func checkC02(c *ctx) {
 		}
 		ops := genC02History(c.rnd, f, 40)
 		blocks, opsM := f.modelBlocks(), c02OpsModel(ops)
-		li := -1
-		if f.has64k() {
-			// a member of 65536 payload bytes is outside the Lean model's domain (WF: payload < 65536; the model
-			// has no counterpart of txOffset's (NextBase, 0) there): judged by the oracle alone
-			r.hist("model-comparison.skipped.payload65536")
-		} else {
-			li = d.add("c02.run %s %s", blocks, opsM)
+		li := d.add("c02.run %s %s", blocks, opsM)
+		withFlat := !f.has64k()
+		if withFlat {
 			d.add("c02.flat %s %s", blocks, opsM)
+		} else {
+			// a member of 65536 payload bytes is outside the flat specification's and the theorems' domain (WF: payload
+			// < 65536): compared with the executable reader model (run64, repaired txOffset) and judged by the oracle
+			r.hist("flatspec-comparison.skipped.payload65536")
 		}
 		// classification
 		hasSeek, touches := false, false
@@ -965,7 +966,7 @@ func checkC02(c *ctx) {
 				r.hist("reader.raw")
 			}
 			impl := runC02(c, f, ops, rd, slow, procs)
-			runs = append(runs, run{li, rd, impl})
+			runs = append(runs, run{li, rd, impl, withFlat})
 			r.eval(fmt.Sprintf("%s|%s|%d", blocks, opsM, rd), hasSeek && touches)
 		}
 		if h%2 == 0 {
@@ -1017,11 +1018,11 @@ func checkC02(c *ctx) {
 	}
 	r.note("trace inclusion (Hts.Model.ReadAhead): %d read-ahead runs, %d events (%d member loads) replayed", len(c02LtsCases), nev, nld)
 	for _, ru := range runs {
-		if ru.line < 0 {
-			continue
-		}
-		r.ModelOps += 2 * len(ru.impl)
+		r.ModelOps += len(ru.impl)
 		c02Compare(r, fmt.Sprintf("C02.model.rd%d", ru.rd), d.lines[ru.line], ru.impl, model[ru.line], false)
-		c02Compare(r, fmt.Sprintf("C02.flatspec.rd%d", ru.rd), d.lines[ru.line+1], ru.impl, model[ru.line+1], true)
+		if ru.flat {
+			r.ModelOps += len(ru.impl)
+			c02Compare(r, fmt.Sprintf("C02.flatspec.rd%d", ru.rd), d.lines[ru.line+1], ru.impl, model[ru.line+1], true)
+		}
 	}
 }
